@@ -169,6 +169,54 @@ def scenarios(tier):
                 yield list(combo), readings, min(restarts, 2)
 
 
+def quit_scenarios():
+    """quit_loop(world) first delivers on_quit; whatever an on_quit handler raises (other than
+    Quit) propagates out of start() like any other exception."""
+    import desper
+
+    class Boom(Exception):
+        pass
+    out = []
+    for kind in ('error', 'ok'):
+        calls = []
+
+        @desper.event_handler('on_quit')
+        class Saver:
+            def on_quit(self):
+                calls.append('on_quit')
+                if kind == 'error':
+                    raise Boom('save failed')
+
+        class Driver(desper.Processor):
+            def process(self, dt):
+                desper.quit_loop(self.world)
+
+        class WH(desper.Handle):
+            def load(self):
+                w = desper.World()
+                w.add_processor(Driver())
+                w.keep = Saver()
+                w.create_entity(w.keep)
+                return w
+        loop = desper.SimpleLoop(iter(range(100)).__next__)
+        loop.switch(WH())
+        try:
+            loop.start()
+            if kind == 'error':
+                out.append(('C14', 'an on_quit handler raised Boom during quit_loop(world) but start() '
+                                   'returned normally: the exception did not propagate', 'quit-masks-error'))
+        except Boom:
+            if kind == 'ok':
+                out.append(('C14', 'start() raised although nothing failed', 'quit-spurious-error'))
+        except Exception as e:       # noqa
+            out.append(('C14', 'start() raised %r' % (e,), 'quit-other-error'))
+        if calls != ['on_quit']:
+            out.append(('C14', 'on_quit delivered %d times by quit_loop' % len(calls), 'on_quit'))
+        if loop.running is not False:
+            out.append(('C14', 'running is %r after start() ended' % (loop.running,), 'start-exit'))
+    return out
+
+
 def main():
     req = json.loads(sys.stdin.read())
     pid = req.get('property')
@@ -186,6 +234,13 @@ def main():
         print(json.dumps({'status': 'no-witness'}))
         return
     tried = 0
+    for v in quit_scenarios():
+        sig = '%s:%s' % (v[0], v[2])
+        if sig in skip or (want and sig != want):
+            continue
+        print(json.dumps({'status': 'reproduced', 'history': {'scenario': 'quit_scenarios'}, 'observed': v[1],
+                          'violates': v[0], 'found_by': 'native scenario', 'signature': sig}, default=str))
+        return
     for script, readings, restarts in scenarios(req.get('tier', 'quick')):
         tried += 1
         try:
